@@ -38,6 +38,8 @@ BASES = [
     'p = first\np = second\npl = {a}\npl += {b, c}\npl = {}\npl = d\nsv = "checked"\none { zp = a }\none { zp = b }\nsec s { pp = x }\nsec s { }\n',
     'i = 1\ninclude("self.conf")\ns = "never"\n',                                 # runs into the include depth limit
     'include("d0.conf")\ninclude("d1.conf")\nsec q { include("nosuch.conf") }\n',  # one level too deep, exactly the limit, missing file
+    'i = 2\ninclude("~nosuchuser_verif/x.conf")\n',                                 # a tilde form that names no account
+    'include("~/nosuch_verif_file.conf")\n',
 ]
 
 RULE = ('valid base texts (lists, function calls with 0-3 arguments, nested/titled/key=value/no-default sections, includes 1-3 deep, pointer options with release callback, '
@@ -186,6 +188,7 @@ HOPS = [
     ['parse_file 0 %s' % hx('inc3top.conf'), 'parse_fp 0 %s' % hx('i = 8\nsl += {"fp"}\n')],
     # a string option set to its own current value (the argument aliases the stored string)
     ['selfstr 0 %s 0 0' % hx('s'), 'selfstr 0 %s 1 1' % hx('sl'), 'selfstr 0 %s 0 1' % hx('sl')],
+    ['add_searchpath 0 %s' % hx('~nosuchuser_verif/dir'), 'add_searchpath 0 %s' % hx('~'), 'parse_file 0 %s' % hx('~nosuchuser_verif/top.conf'), 'tilde %s' % hx('~nosuchuser_verif')],
 ]
 
 
